@@ -5,6 +5,7 @@
 //  file LICENSE_1_0.txt or copy at http://www.boost.org/LICENSE_1_0.txt)
 
 #include <pika/config.hpp>
+#include <pika/config/verif_hooks.hpp>
 #include <pika/assert.hpp>
 #include <pika/modules/execution_base.hpp>
 #include <pika/modules/thread_support.hpp>
@@ -62,6 +63,7 @@ namespace pika::detail {
     {
         auto old_state = state_.load(std::memory_order_relaxed);
 
+        PIKA_VERIF_POINT(::pika::verif::stop_before_cas, this, 0);
         auto expected = old_state & ~stop_state::locked_flag;
         while (!state_.compare_exchange_weak(expected, old_state | stop_state::locked_flag,
             std::memory_order_acquire, std::memory_order_relaxed))
@@ -85,6 +87,7 @@ namespace pika::detail {
 
         if (stop_requested(old_state)) return false;
 
+        PIKA_VERIF_POINT(::pika::verif::stop_before_cas, this, 1);
         auto expected = old_state & ~stop_state::locked_flag;
         while (!state_.compare_exchange_weak(expected,
             old_state | stop_state::stop_requested_flag | stop_state::locked_flag,
@@ -122,6 +125,7 @@ namespace pika::detail {
         }
         else if (!stop_possible(old_state)) { return false; }
 
+        PIKA_VERIF_POINT(::pika::verif::stop_before_cas, this, 2);
         auto expected = old_state & ~stop_state::locked_flag;
         while (!state_.compare_exchange_weak(expected, old_state | stop_state::locked_flag,
             std::memory_order_acquire, std::memory_order_relaxed))
@@ -186,6 +190,7 @@ namespace pika::detail {
             std::lock_guard<stop_state> l(*this);
             if (cb->remove_this_callback()) { return; }
         }
+        PIKA_VERIF_POINT(::pika::verif::stop_remove_after_unlink, cb);
 
         // Callback has either already executed or is executing concurrently
         // on another thread.
@@ -260,7 +265,9 @@ namespace pika::detail {
             bool is_removed = false;
             cb->is_removed_ = &is_removed;
 
+            PIKA_VERIF_POINT(::pika::verif::stop_dequeued, cb);
             cb->execute();
+            PIKA_VERIF_POINT(::pika::verif::stop_executed, cb);
 
             if (!is_removed)
             {
